@@ -11,7 +11,8 @@ BOUNDS = {"quick": "inductive step: URLs from 6 skeletons (<= 2 free holes) x wa
                    "own, found by a dry run on the live class, plus 'none' and hash/str/==/pickle) x member A (every accessor / nullary method, in "
                    "slots) and every modifier with a 1-code-point argument; lru key model: two-call histories of make_netloc, _encode_host, "
                    "split_netloc, from_parts, encode_url with symbolic arguments; kernel two-call histories of the 13 quoter/unquoter "
-                   "instances with texts of <= 2 code points; unpickling next to a cached object",
+                   "instances with texts of <= 2 code points; unpickling next to a cached object; concrete (no solver): numeric query-value "
+                   "histories and six pairs of host spellings that fold to one encoded host, warm vs cold",
           "thorough": "all ordered pairs B;A for the authority and escape skeletons, every third pair for the others; 6 skeletons x all modifiers "
                       "from the all-warm state and one or two other warm-ups; kernel two-call histories of <= 2 code points each plus escape skeletons"}
 ASSUMPTIONS = ["results depend on history only through URL._cache, the functools.lru_cache wrappers and the state of the quoter/unquoter instances: "
@@ -19,7 +20,9 @@ ASSUMPTIONS = ["results depend on history only through URL._cache, the functools
                "functools.lru_cache is modelled as an association list keyed on the argument tuple with Python equality (so 1 == True collide, as in "
                "functools); eviction and cache_configure()/cache_clear() re-wrap the same functions and are exercised concretely on every path "
                "witness (cache sizes 0, 1, None, default) - reported separately from the solver claim",
-               "symbolic host text that looks like an IP literal, non-ASCII authority text and IDNA are cut and counted"]
+               "symbolic host text that looks like an IP literal, non-ASCII authority text and IDNA are cut and counted; history through the IDNA "
+               "caches is therefore only exercised on concrete non-ASCII hosts (host-history-concrete), outside the solver claim",
+               "the all-warm state before every modifier = every cross-writing member plus ordering, hash, str, == and __getstate__"]
 MANIFEST_ENTRY = {
     "text": "Bounded model checking of an inductive step: from a URL with symbolic parts and a cache warmed by another member B, every member A "
             "leaves the five slots of every operand and all arguments unchanged, keeps Inv (each cache entry equals the cache-free value) for "
@@ -135,9 +138,10 @@ def h_step(ctx, skeleton, route, b_index, a_slot, mod=None):
     # cold outcomes first (nothing ran before), then the warm-up, then the same calls on the warm object
     cold = [run_member(P, twin, m, methods, arg) for m in members]
     if b == "all":
-        # the warmest state: every member that fills a cache key other than its own, plus hash / ordering / pickling state
+        # the warmest state: every member that fills a cache key other than its own, plus ordering, hash (its memo is a hand-stored cache key,
+        # not a cached property), str, equality and pickling state
         rb = ("ok", None)
-        for w in writers[1:] + ["lt"]:
+        for w in writers[1:] + ["lt", "hash", "str", "eq", "getstate"]:
             x = run_member(P, u, w, methods)
             if x[0] == "excluded":
                 rb = x
@@ -313,6 +317,36 @@ def h_value_history(ctx):
     ctx.observe("done", True)
 
 
+def h_host_history(ctx):
+    """hosts whose spellings fold to the same encoded host (NFKC / case / IDNA): what a URL reports for host, authority, human_repr
+    and str does not depend on which spelling was seen before (the two IDNA caches must not feed each other); concrete texts"""
+    P = ctx.P
+    rows = (("http://\uff25\uff38\uff21\uff2d\uff30\uff2c\uff25.com/", "http://example.com/", "example.com"),
+            ("http://\ufb01sh.example/", "http://fish.example/", "fish.example"),
+            ("http://B\u00dcCHER.example/", "http://xn--bcher-kva.example/", "b\u00fccher.example"),
+            ("http://bu\u0308cher.example/", "http://b\u00fccher.example/", "b\u00fccher.example"),
+            ("http://xn--bcher-kva.example/", "http://B\u00dcCHER.example/", "b\u00fccher.example"),
+            ("http://EXAMPLE.com/", "http://\uff45xample.com/", "example.com"))
+
+    def views(text, tag):
+        # a fresh path per call: URL(text) itself is memoised by encode_url's lru_cache (which cache_clear() does not touch), and a memoised
+        # object would answer from its own _cache without consulting the IDNA caches at all
+        u = P.URL(text + tag)
+        return (u.host, u.authority, u.human_repr().replace(tag, ""), str(u).replace(tag, ""), u.raw_host, u.host_subcomponent)
+    n = 0
+    for first, second, host in rows:
+        for a, b in ((first, second), (second, first)):
+            n += 1
+            P.yarl.cache_clear()
+            cold = call(views, b, "c%d" % n)
+            P.yarl.cache_clear()
+            call(views, a, "f%d" % n)
+            warm = call(views, b, "w%d" % n)
+            ctx.check("host-views-independent-of-earlier-spellings", cold[0] == warm[0] and cold[1] == warm[1], (a, b, cold[1], warm[1]))
+            ctx.check("decoded-host-is-the-idna-decoding", warm[0] == "ok" and warm[1][0] == host, (b, warm[1]))
+    ctx.observe("done", True)
+
+
 SKELS = [("auth", ["http://u", NS, ":p@h:81/a/b.c?x=1#f"]), ("path", ["http://h/a", NS, "/b.c", NS, "?x=1&y=2#f"]), ("query", ["//h/p?", NS, "=", NS, "&k=v"]),
          ("frag", ["x://h:0/p#", NS, NS]), ("relative", [NS, "/b?q#f"]), ("escapes", ["http://h/%c3", NS, "?%a9=", NS, "#%c3%a9"])]
 MODS = ["with_user", "with_password", "with_path", "with_query", "update_query", "extend_query", "with_fragment", "with_name", "with_suffix",
@@ -366,4 +400,5 @@ def families(tier):
                                    dict(name=name, n=0, skeleton=[("ns",), "%", ("hex",), ("hex",)]), backends=("py",)))
     fams.append(Family("unpickle", h_unpickle, {}))
     fams.append(Family("value-history-concrete", h_value_history, {}))
+    fams.append(Family("host-history-concrete", h_host_history, {}))
     return fams
